@@ -185,6 +185,10 @@ def locate_statements():
     else:
         missing.append("BgServingThread._bg_server:b0")
     targets = set(marks)
+    for name in ("_deliver_response", "_netref_class", "_netref_factory"):     # newer layouts of the dispatch path
+        fn = getattr(Connection, name, None)
+        if fn is not None:
+            targets.add(fn.__code__)
     for fn in (Connection.serve, Connection._dispatch, Connection._seq_request_callback, Connection._async_request,
                Connection.async_request, Connection._get_seq_id, Connection.sync_request, Connection.poll,
                Connection.poll_all, AsyncResult.ready.fget, AsyncResult.wait,
@@ -297,8 +301,10 @@ class Sched:
             raise Abort()
         th.state, th.kind, th.cond, th.deadline = "blocked", kind, cond, deadline
         th.acted = 0
-        if kind in ("poll", "cond") and not th.is_bg and not self.enabled(th):
-            self.run.note_blocked(th)
+        if kind in ("poll", "cond") and not th.is_bg:
+            self.run.check_deadline(th, kind, deadline)
+            if not self.enabled(th):
+                self.run.note_blocked(th)
         self._yield(th)
         th.state, th.kind, th.cond, th.deadline = "run", None, None, None
 
@@ -784,6 +790,7 @@ class Run:
         self.current_poll = {}
         self.handler_of = {}        # seq -> handler id of the request (answers to REPR/STR must be strings)
         self.nested_requests = []   # (tid, seq, handler): requests a thread sent while dispatching a received frame
+        self.deadline_violations = []   # a caller blocked without a deadline, or past its own expiry (see check_deadline)
         self.ready_polls = []       # (tid, seq, number of `ready` reads that returned False, trace index when it was True)
         self.unrelated_sent = 0
         self.table_replaced = None  # trace index at which `conn._request_callbacks` was found rebound to another object
@@ -854,6 +861,22 @@ class Run:
         lt = th.lstack.pop()
         seq = [q for (t, q) in self.issued if t == lt][-1]
         self.results.setdefault(lt, []).append((seq, text, self.sched.now))
+
+    def check_deadline(self, th, kind, deadline):
+        """deadline oracle (real code): a caller inside a call whose result expires at T never blocks -- in poll() or on
+        the condition -- without a deadline, or with one later than T (it is released no later than its own expiry)"""
+        q = self.current_seq(th.ltid)
+        cell = self.cells.get(q) if q is not None else None
+        if cell is None:
+            return
+        ttl = cell._ttl
+        if not ttl.finite:
+            return
+        limit = max(self.sched.now, ttl.tmax)
+        if deadline is None or deadline > limit:
+            self.deadline_violations.append(dict(
+                tid=th.ltid, seq=q, kind=kind, blocked_until=deadline, expiry=ttl.tmax, now=self.sched.now,
+                at=len(self.sched.trace), ready=bool(cell._is_ready)))
 
     def note_blocked(self, th):
         q = self.current_seq(th.ltid)
@@ -1499,6 +1522,20 @@ def stalls_of(run):
 
 
 SIG_DRAIN = "C14:ready-poll-keeps-serving-after-own-reply"
+SIG_PAST_EXPIRY = "C14:blocked-past-own-expiry"
+
+
+def past_expiry(run):
+    """the deadline oracle as stall records (signature SIG_PAST_EXPIRY)"""
+    out = []
+    for d in run.deadline_violations:
+        where = {"poll": "poll()", "cond": "Condition.wait()"}.get(d["kind"], d["kind"])
+        out.append(dict(tid=d["tid"], seq=d["seq"], receiver=None, t_dispatch=None, t_return=None, tmo=None, blocked_in=d["kind"],
+                        signature=SIG_PAST_EXPIRY, at=d["at"],
+                        shape="at t=%s thread %s (request %s, expiry t=%s, result %s) blocked in %s %s: its own expiry does not release it"
+                              % (fmt_t(d["now"]), d["tid"], d["seq"], fmt_t(d["expiry"]), "ready" if d["ready"] else "not ready", where,
+                                 "without any deadline" if d["blocked_until"] is None else "until t=%s" % fmt_t(d["blocked_until"]))))
+    return out
 
 
 def ready_drain(run):
@@ -1614,6 +1651,8 @@ def c13_violations(run):
                             "closed the stream" % (c["tid"], c["seq"])))
         else:
             out.append(("C13:unexpected-exception", "thread %d request %d: %s" % (c["tid"], c["seq"], res)))
+    for st in past_expiry(run)[:1]:
+        out.append(("C13:blocked-past-own-expiry", st["shape"]))
     for (tid, rid, res) in run.callback_expected:
         n = run.callback_log.count((tid, rid))
         if n > 1 or (n == 0 and res._is_ready and run.outcome == "finished"):
